@@ -31,26 +31,27 @@ struct StaticChunkMapper {
   IntegerT rangeEnd;
 
   std::pair<IntegerT, IntegerT> operator()(size_type idx) const {
-    IntegerT start;
+    // Compute modulo 2^64 in unsigned arithmetic and narrow at the end.  The intermediate products
+    // (index * chunkSize) do not fit IntegerT when the range spans most of the type's domain, which
+    // is undefined behavior for signed IntegerT even though every resulting bound is representable.
+    using U = uint64_t;
+    const U cs = static_cast<U>(chunkSize);
+    const U sc = static_cast<U>(smallChunk);
+    U start = static_cast<U>(rangeStart);
     if (idx < transIdx) {
-      IntegerT i = static_cast<IntegerT>(idx);
-      start = static_cast<IntegerT>(rangeStart + static_cast<IntegerT>(i * chunkSize));
+      start += static_cast<U>(idx) * cs;
     } else {
-      IntegerT ti = static_cast<IntegerT>(transIdx);
-      IntegerT ri = static_cast<IntegerT>(idx - transIdx);
-      start = static_cast<IntegerT>(
-          rangeStart + static_cast<IntegerT>(ti * chunkSize) +
-          static_cast<IntegerT>(ri * smallChunk));
+      start += static_cast<U>(transIdx) * cs + static_cast<U>(idx - transIdx) * sc;
     }
-    IntegerT end;
+    U end;
     if (idx + 1 == numThreads) {
-      end = rangeEnd;
+      end = static_cast<U>(rangeEnd);
     } else if (idx < transIdx) {
-      end = static_cast<IntegerT>(start + chunkSize);
+      end = start + cs;
     } else {
-      end = static_cast<IntegerT>(start + smallChunk);
+      end = start + sc;
     }
-    return {start, end};
+    return {static_cast<IntegerT>(start), static_cast<IntegerT>(end)};
   }
 };
 
@@ -91,9 +92,10 @@ void parallel_for_staticImpl(
   IntegerT chunkSize = static_cast<IntegerT>(chunking.ceilChunkSize);
 
   bool perfectlyChunked = static_cast<size_type>(chunking.transitionTaskIndex) == numThreads;
-  IntegerT chunkStep = granularity > 1 ? static_cast<IntegerT>(granularity) : IntegerT{1};
+  // Subtract in ssize_t before narrowing: chunkSize may already have wrapped in IntegerT.
+  ssize_t chunkStep = granularity > 1 ? static_cast<ssize_t>(granularity) : ssize_t{1};
   IntegerT smallChunk =
-      static_cast<IntegerT>(chunkSize - (perfectlyChunked ? IntegerT{0} : chunkStep));
+      static_cast<IntegerT>(chunking.ceilChunkSize - (perfectlyChunked ? ssize_t{0} : chunkStep));
 
   StaticChunkMapper<IntegerT> chunkRange{
       numThreads,
